@@ -17,6 +17,10 @@ EXTRA = {
     "NngModel.Props.C06": ["Nng.C06.push_conservation", "Nng.C06.push_offered_partition", "Nng.C06.push_offered_exactly_once",
                            "Nng.C06.push_completion_msgback", "Nng.C06.pull_conservation", "Nng.C06.pull_exactly_once"],
     "NngModel.Props.C09": ["Nng.C09.B7_send_accounted", "Nng.C09.B7_closed_pipe_empty"],
+    "NngModel.Props.C12": ["Nng.C12.ownership", "Nng.C12.ownership_while_outstanding", "Nng.C12.ownership_after_release"],
+    "NngModel.Props.C08": ["Nng.C08.a5_every_send_accounted"],
+    "NngModel.Props.C05": ["Nng.C05.X1_arrivals_accounted"],
+    "NngModel.Props.C02": ["Nng.Props.C02.freed_nothing_references"],
     "NngModel.Props.C17": ["Nng.C17.every_run_is_two_strings", "Nng.C17.dup_equal"],
 }
 
